@@ -414,6 +414,7 @@ def check_dict(d, seed):
         return {"check": _LAST.get("check", "contract"), "what": _LAST.get("what", "contract failed"), "witness": w}
 
     _LAST.clear()
+    side = []
     try:
         pruned = copy.deepcopy(d)
         ts.prune(pruned)
@@ -438,7 +439,12 @@ def check_dict(d, seed):
             nontrivial = True
             wit["root"] = root
             list(ts.proof_tree_generator_dfs(pruned, root))
-            list(ts.proof_tree_generator_bfs(pruned, root))
+            try:
+                list(ts.proof_tree_generator_bfs(pruned, root))
+            except deal.ContractError:
+                # remembered, but the remaining finders are still exercised on this dictionary
+                side.append(fail({"root": root}))
+                _LAST.clear()
             evals += 2
             best = min(spec_size(s) for s in o_specs(pruned, root))
             for m in range(0, best + 3):
@@ -454,7 +460,7 @@ def check_dict(d, seed):
                 ts.time.t = 0.0
                 ts.smallish_random_proof_tree(pruned, root, rnd.choice([0, 2, 5, 9]))
                 evals += 1
-        return None, evals, nontrivial
+        return (side[0] if side else None), evals, nontrivial
     except deal.ContractError:
         return fail(), evals, True
     except Exception as e:
